@@ -8,7 +8,8 @@ What is NOT proved here (carried by the bit-exact differential run and the indep
 point-location oracle): the multi-level composition of the single-level ray-trace theorem,
 rays through corners / tangent points (simultaneous or double events), floating-point rounding.
 -/
-import CelerVerif.Lemmas.NavTrack
+import CelerVerif.Lemmas.NavRect
+import CelerVerif.Lemmas.NavLevels
 
 namespace CelerVerif.Nav
 open CelerVerif CelerVerif.Surf
@@ -64,27 +65,38 @@ theorem limited_eq_truncated_unlimited (g : Geo ℝ) (u : SimpleUnit ℝ) (st : 
   simp only []
   rw [gatherHitsFrom_limited m hm, pickHit_filter]
 
-/-- … in the form used by the level loop: found within the limit ⇒ the unlimited answer,
-    otherwise "no surface, distance = limit" -/
-theorem intersectMax_simple (g : Geo ℝ) (uid : ℕ) (u : SimpleUnit ℝ) (hu : g.univ uid = .simple u)
-    (st : LocalState ℝ) (m : ℝ) (hm : m < (maxFinite : ℝ)) :
+/-- ★ the same for the rect-array tracker (`RectArrayTracker::intersect(state, max)`) -/
+theorem limited_eq_truncated_unlimited_rect (r : RectArray ℝ) (st : LocalState ℝ) (m : ℝ)
+    (hm : m < (maxFinite : ℝ)) :
+    r.intersectImpl st (.notFurther (some m)) = truncate (some m) (r.intersectImpl st .finite) :=
+  rect_limited_eq_truncated r st m hm
+
+/-- … in the form used by the level loop, for EVERY universe type: found within the limit ⇒
+    the unlimited answer, otherwise "no surface, distance = limit" -/
+theorem intersectMax_limited (g : Geo ℝ) (uid : ℕ) (st : LocalState ℝ) (m : ℝ)
+    (hm : m < (maxFinite : ℝ)) :
     g.intersectMax uid st (some m) =
       if (g.intersect uid st).surf.id.isSome && dle (g.intersect uid st).dist (some m)
       then g.intersect uid st else { (Isect.none' : Isect ℝ) with dist := some m } := by
-  unfold Geo.intersectMax Geo.intersect Geo.intersectImpl
-  rw [hu]
+  have key : g.intersectImpl uid st (.notFurther (some m))
+      = truncate (some m) (g.intersectImpl uid st .finite) := by
+    unfold Geo.intersectImpl
+    cases g.univ uid with
+    | simple u => exact limited_eq_truncated_unlimited g u st m hm
+    | rect r => exact rect_limited_eq_truncated r st m hm
+  unfold Geo.intersectMax Geo.intersect
   simp only []
-  rw [limited_eq_truncated_unlimited g u st m hm]
+  rw [key]
   unfold truncate
-  by_cases hc : ((u.intersectImpl g st .finite).surf.id.isSome
-      && dle (u.intersectImpl g st .finite).dist (some m)) = true
-  · have h1 : (u.intersectImpl g st .finite).surf.id.isSome = true := by
-      have : (u.intersectImpl g st .finite).surf.id.isSome = true
-          ∧ dle (u.intersectImpl g st .finite).dist (some m) = true := by simpa using hc
+  by_cases hc : ((g.intersectImpl uid st .finite).surf.id.isSome
+      && dle (g.intersectImpl uid st .finite).dist (some m)) = true
+  · have h1 : (g.intersectImpl uid st .finite).surf.id.isSome = true := by
+      have : (g.intersectImpl uid st .finite).surf.id.isSome = true
+          ∧ dle (g.intersectImpl uid st .finite).dist (some m) = true := by simpa using hc
       exact this.1
     simp only [hc, if_true]
-    have : (u.intersectImpl g st .finite).surf.id.isNone = false := by
-      cases h : (u.intersectImpl g st .finite).surf.id <;> simp_all
+    have : (g.intersectImpl uid st .finite).surf.id.isNone = false := by
+      cases h : (g.intersectImpl uid st .finite).surf.id <;> simp_all
     simp [this]
   · simp only [hc, Bool.false_eq_true, if_false]
     simp [Isect.none']
@@ -105,16 +117,16 @@ theorem findNextStep_min_shallowest (lim : ℕ → Option ℝ → Isect ℝ) (un
         ∀ l' ∈ b, top (unl l).dist ≤ found (unl l'))) :=
   findImplLoopG_spec lim unl hc ls i0 l0
 
-/-- the contract holds for the model's own per-level search whenever the levels are simple
-    units and the running limit is a finite distance below `max()` -/
-theorem levelLimited_contract (g : Geo ℝ) (s : State ℝ) (lev : ℕ) (u : SimpleUnit ℝ)
-    (hu : g.univ (s.lev lev).uid = .simple u) (m : ℝ) (hm : m < (maxFinite : ℝ)) :
+/-- the contract holds for the model's own per-level search at every level (simple units and
+    rect arrays) whenever the running limit is a finite distance below `max()` -/
+theorem levelLimited_contract (g : Geo ℝ) (s : State ℝ) (lev : ℕ) (m : ℝ)
+    (hm : m < (maxFinite : ℝ)) :
     levelLimited g s lev (some m) =
       if (g.intersect (s.lev lev).uid (s.localState lev)).surf.id.isSome
           && dle (g.intersect (s.lev lev).uid (s.localState lev)).dist (some m)
       then g.intersect (s.lev lev).uid (s.localState lev)
       else { (Isect.none' : Isect ℝ) with dist := some m } :=
-  intersectMax_simple g _ u hu _ m hm
+  intersectMax_limited g _ _ m hm
 
 /-! ### set_dir on a boundary -/
 
@@ -187,13 +199,13 @@ noncomputable def witnessState : State ℝ :=
     failed := false }
 
 theorem witness_normal : localNormal witnessGeo witnessState 0 = ⟨1, 0, 0⟩ := by
-  simp [localNormal, witnessState, witnessGeo, Geo.normal, Geo.univ, SimpleUnit.normal,
+  simp [localNormal, State.lev, SimpleUnit.surf, witnessState, witnessGeo, Geo.normal, Geo.univ, SimpleUnit.normal,
     Surface.calcNormal, Surface.gradient, Axis.toNat, Vec3.set]
 
 theorem witness_transform :
     levelTransform witnessGeo witnessState 0
       = .transformation ⟨⟨⟨0, -1, 0⟩, ⟨1, 0, 0⟩, ⟨0, 0, 1⟩⟩, ⟨0, 0, 0⟩⟩ := by
-  simp [levelTransform, witnessState, witnessGeo, Geo.daughter, Geo.univ, Geo.daughterInfo]
+  simp [levelTransform, State.lev, SimpleUnit.vol, witnessState, witnessGeo, Geo.daughter, Geo.univ, Geo.daughterInfo]
 
 /-- ★ the defect repaired in aba3908 (DESIGN §8 row a), proved on the model of the loop AS IT
     WAS WRITTEN: with a rotated daughter and `surface_level < level`, turning back inward
@@ -258,7 +270,7 @@ noncomputable def halfState : State ℝ :=
 theorem half_flips : setDirFlips halfGeo halfState ⟨-1, 0, 0⟩ 0 = true := by
   rw [setDir_flag_correct]
   have hn : localNormal halfGeo halfState 0 = ⟨1, 0, 0⟩ := by
-    simp [localNormal, halfState, halfGeo, Geo.normal, Geo.univ, SimpleUnit.normal,
+    simp [localNormal, State.lev, SimpleUnit.surf, halfState, halfGeo, Geo.normal, Geo.univ, SimpleUnit.normal,
       Surface.calcNormal, Surface.gradient, Axis.toNat, Vec3.set]
   have ho : (halfState.lev 0).dir = ⟨1, 0, 0⟩ := by simp [State.lev, halfState]
   rw [hn, ho]
@@ -270,7 +282,7 @@ theorem half_flips : setDirFlips halfGeo halfState ⟨-1, 0, 0⟩ 0 = true := by
 theorem half_locate : halfGeo.initialize 0 ⟨-1, 0, 0⟩ = some 0 := by
   have h1 : Num.le (-1 : ℝ) 0 = true := by rw [NumR.le_real]; norm_num
   have h2 : Num.lt (-1 : ℝ) 0 = true := by rw [NumR.lt_real]; norm_num
-  simp [h1, h2, Geo.initialize, Geo.univ, halfGeo, SimpleUnit.initialize, bihCandidates, bihLoop,
+  simp [h1, h2, SimpleUnit.surf, SimpleUnit.vol, Geo.initialize, Geo.univ, halfGeo, SimpleUnit.initialize, bihCandidates, bihLoop,
     bihNext, initScan, calcSenses, calcSensesFrom, Surface.calcSense, Surface.quadric, realToSense,
     evalLogic, evalLogicStep, lnot, lbegin, ltrue, lor, land, Vec3.ax, Axis.toNat, Vec3.get]
 
@@ -298,7 +310,7 @@ theorem setDir_postCrossing_desync :
     unfold setDir
     have hsl : halfState.surfaceLevel = some 0 := rfl
     simp only [hsl, half_flips, if_true, State.clearNext]
-    simp [halfState, State.lvl, dirDown, halfGeo, Geo.daughter, Geo.univ, List.range, List.range.loop]
+    simp [halfState, State.lvl, dirDown, halfGeo, SimpleUnit.vol, Geo.daughter, Geo.univ, List.range, List.range.loop]
   obtain ⟨hf, _, hcl⟩ := reentrant_cross_keeps_volume halfGeo _ hb
   have hl3 : (crossBoundary halfGeo (findNextStep halfGeo
       (setDir halfGeo halfState ⟨-1, 0, 0⟩) none).1).levels
@@ -313,10 +325,11 @@ theorem setDir_postCrossing_desync :
 
 /-! ### single-level ray tracing = point location -/
 
-/-- ★ (partial: one level; FULL statement wanted: the same for nested universes — by induction
-    on depth with `findNextStep_min_shallowest` — and for piecewise-straight paths with
-    `set_dir`, which is false for a direction reversal on the surface just crossed, see
-    `reentrant_cross_keeps_volume`.)
+/-- ★ (the abstract core: parity semantics of the events assumed here, DERIVED from the C12
+    surface theorems in `ray_trace_matches_location_unit` below; nested universes: one step in
+    `nested_trace_first_change_partial`.  Still partial: piecewise-straight paths with
+    `set_dir`, for which the statement is false for a direction reversal on the surface just
+    crossed, see `setDir_postCrossing_desync`.)
     One universe, a straight ray whose crossing events `evs` (face, distance; ascending, as the
     surface code reports them — C12 `isect_on_surface` / `isect_complete`) obey parity
     semantics: on each open interval between consecutive events the senses are the start
@@ -336,6 +349,171 @@ theorem ray_trace_terminates (loc : Array Bool → ℕ) (s0 : Array Bool) (evs :
     (navTrace loc evs.length s0 evs).length ≤ evs.length := by
   rw [ray_trace_matches_location_partial]
   exact locTrace_length loc _ _ _
+
+/-! ### the parity contract derived from the surface theorems (C12) -/
+
+/-- the tracker's own data: off a surface, `CalcIntersections` + sort yields `rayEvents` and
+    `SenseCalculator` yields `sensesOf` -/
+theorem tracker_uses_ray_events (u : SimpleUnit ℝ) (vol : Volume ℝ) (st : LocalState ℝ) :
+    sortHits (gatherHits .finite (faceAnswers u st none 0 vol.faces))
+        = rayEvents u vol.faces st.pos st.dir ∧
+    (calcSenses u vol st.pos none).1 = (sensesOf u vol.faces st.pos).toArray :=
+  ⟨rayEvents_eq_tracker u st vol.faces, calcSenses_fst u vol st.pos⟩
+
+/-- ★ one face: off the reported distances, the sign of the surface function (= the sense, C12
+    `sense_eq_sign`) at parameter `t` is the sign at the start flipped once per reported
+    distance below `t`.  From C12 `isect_on_surface`, `isect_complete`,
+    `sense_flips_across_crossing` and the intermediate value theorem. -/
+theorem face_sense_parity (s : Surface ℝ) (pos dir : Vec3 ℝ) (hu : unitDir dir)
+    (gp : FaceGP s pos dir) (t : ℝ) (ht : 0 < t) (hnr : t ∉ faceRoots s pos dir) :
+    decide (0 < s.quadric (along pos dir t)) =
+      (decide (0 < s.quadric pos)
+        ^^ Nat.bodd ((faceRoots s pos dir).countP fun r => decide (r < t))) :=
+  face_parity s pos dir hu gp t ht hnr
+
+/-- ★ single level, contract DERIVED: a volume (or unit) whose faces are quadrics, a ray in
+    general position w.r.t. each face (`FaceGP`: start off the surfaces, leading coefficient
+    outside the solver's tolerance band, all crossings simple, finite distances).
+    (i) the tracker's (volume, distance) sequence equals the point-location sequence over the
+    collected events; (ii) the sense vector which that point location uses on the `k`-th
+    interval IS the true sense vector of every ray point strictly between the `k`-th and the
+    `(k+1)`-th event — the face senses change exactly at the reported distances.
+    When no two events share a distance every interval is non-empty, so every reported
+    (volume, distance) pair is the location on an actual piece of the ray; with coinciding
+    events (a ray through an edge or corner) the empty intervals in between are reported by
+    BOTH sides alike. -/
+theorem ray_trace_matches_location_unit (u : SimpleUnit ℝ) (faces : List ℕ) (pos dir : Vec3 ℝ)
+    (loc : Array Bool → ℕ) (hu : unitDir dir)
+    (gp : ∀ sid ∈ faces, FaceGP (u.surf sid) pos dir) :
+    let evs := rayEvents u faces pos dir
+    let s0 := (sensesOf u faces pos).toArray
+    navTrace loc evs.length s0 evs = locTrace loc (loc s0) s0 evs ∧
+    ∀ (k : ℕ) (t : ℝ), 0 < t →
+      (∀ h ∈ evs.take k, top h.dist < top (some t)) →
+      (∀ h ∈ evs.drop k, top (some t) < top h.dist) →
+      flipAll s0 (evs.take k) = (sensesOf u faces (along pos dir t)).toArray := by
+  intro evs s0
+  refine ⟨navTrace_eq_locTrace loc evs.length s0 evs (le_refl _), ?_⟩
+  intro k t ht h1 h2
+  -- t is not a reported distance of any face
+  have hnr : ∀ sid ∈ faces, t ∉ faceRoots (u.surf sid) pos dir := by
+    intro sid hsid hmem
+    obtain ⟨j, hj, hjs⟩ := List.mem_iff_getElem.1 hsid
+    have hin : (⟨j, some t⟩ : Hit ℝ) ∈ evs := by
+      show _ ∈ sortHits _
+      rw [sortHits_mem, mem_gather u pos dir hu faces gp 0]
+      exact ⟨j, hj, by simp, t, by rw [hjs]; exact hmem, rfl⟩
+    rw [← List.take_append_drop k evs] at hin
+    rcases List.mem_append.1 hin with h | h
+    · exact lt_irrefl _ (h1 _ h)
+    · exact lt_irrefl _ (h2 _ h)
+  rw [senses_flip_at_events u faces pos dir hu gp t ht hnr,
+    filter_lt_eq_take evs k t h1 (fun h hh => le_of_lt (h2 h hh))]
+
+/-! ### nested universes -/
+
+/-- ★ the local rays of all levels are images of one physical ray: daughter transforms
+    (translations, transformations) map the point at path parameter `t` to the point of the
+    daughter's local ray at the same `t`; orthonormal daughters keep directions unit; and the
+    tracker's moves keep the levels consistent.  Hence the per-level distances of
+    `find_next_step` are distances along the same ray and may be compared. -/
+theorem levels_share_the_ray (g : Geo ℝ) (s : State ℝ) (hc : LevelsConsistent g s) :
+    (∀ k, k + 1 < s.levels.size → ∀ t,
+        along (s.lev (k + 1)).pos (s.lev (k + 1)).dir t
+          = (levelTransform g s k).down (along (s.lev k).pos (s.lev k).dir t)) ∧
+    ((∀ k, k + 1 < s.levels.size → (levelTransform g s k).Ortho) → unitDir (s.lev 0).dir →
+        ∀ k, k < s.levels.size → unitDir (s.lev k).dir) ∧
+    (∀ d, LevelsConsistent g { s with levels := moveLevels s d }) :=
+  ⟨fun k hk t => levels_follow_ray g s hc k hk t,
+   fun ho hu k hk => levels_unit_dir g s hc ho hu k hk,
+   fun d => moveLevels_consistent g s hc d⟩
+
+/-- ★ (partial: ONE step of the nested trace; FULL statement wanted: iterate it along the whole
+    ray.  Missing: after the crossing the deeper levels are re-initialised by `descend`, i.e.
+    by point location AT the crossing point; identifying that with the location just behind
+    the crossing needs "no surface of the newly entered daughters passes through the crossing
+    point" — exactly what fails in the known finding
+    `cross-failed:inputbuilder-universe-union-boundary`.)
+    Composition by induction on depth.  Levels `0 :: ls`, each with its single-level contract
+    (`LevelRay.Ok`: the located volume of that level stays the tracker's volume before the
+    level's own next boundary and differs right behind it — `ray_trace_matches_location_unit`),
+    per-level exits = the unlimited per-level answers, limited searches = truncations
+    (`levelLimited_contract`).  Then the (distance, level) computed by `find_next_step_impl`
+    is the first change of the nested point location: (i) before that distance the nested
+    location is the tracker's chain of volumes; (ii) right behind it the nested location
+    agrees above the reported level and differs AT the reported level. -/
+theorem nested_trace_first_change_partial (lim : ℕ → Option ℝ → Isect ℝ) (unl : ℕ → Isect ℝ)
+    (hc : LimitedOf lim unl) (ls : List ℕ) (lrs : List LevelRay) (hok : ∀ L ∈ lrs, L.Ok)
+    (hlen : lrs.length = ls.length + 1)
+    (hex : ∀ j (hj : j < lrs.length),
+      lrs[j].exit = found (unl ((0 :: ls)[j]'(by simpa [hlen] using hj))))
+    (h0 : top (unl 0).dist = found (unl 0)) :
+    let r := findImplLoopG lim ls (unl 0) 0
+    (∀ t : ℝ, 0 < t → (t : WithTop ℝ) < top r.1.dist → nestedAt lrs t = lrs.map (·.v)) ∧
+    (∀ d : ℝ, 0 ≤ d → r.1.dist = some d → r.1.surf.id.isSome = true →
+      ∃ p, ∃ hp : p < lrs.length, (0 :: ls)[p]'(by simpa [hlen] using hp) = r.2 ∧
+        ∃ ε, 0 < ε ∧ ∀ t, d < t → t < d + ε →
+          (nestedAt lrs t).take p = (lrs.map (·.v)).take p ∧
+          (nestedAt lrs t)[p]? = some (lrs[p].volAt t) ∧ lrs[p].volAt t ≠ lrs[p].v) := by
+  intro r
+  obtain ⟨⟨ha0, hal⟩, hb⟩ := findImplLoopG_spec lim unl hc ls (unl 0) 0
+  have hmin : ∀ j (hj : j < lrs.length), top r.1.dist ≤ lrs[j].exit := by
+    intro j hj
+    rw [hex j hj]
+    cases j with
+    | zero => simpa [h0] using ha0
+    | succ j =>
+      have hj' : j < ls.length := by omega
+      simpa using hal ls[j] (List.getElem_mem hj')
+  refine ⟨?_, ?_⟩
+  · intro t ht hlt
+    apply nested_const_before lrs hok t ht
+    intro L hL
+    obtain ⟨j, hj, rfl⟩ := List.mem_iff_getElem.1 hL
+    exact lt_of_lt_of_le hlt (hmin j hj)
+  · intro d hd0 hdist hsome
+    have htop : top r.1.dist = (d : WithTop ℝ) := by rw [hdist]; rfl
+    rcases hb with ⟨hr, _⟩ | ⟨a, l, b, hab, hr, hs, hlt0, hla, _⟩
+    · -- level 0
+      have hp : 0 < lrs.length := by omega
+      refine ⟨0, hp, ?_, ?_⟩
+      · have : r.2 = 0 := by rw [show r = (unl 0, 0) from hr]
+        simpa using this.symm
+      · have hexit : lrs[0].exit = (d : WithTop ℝ) := by
+          rw [hex 0 hp]
+          have : r.1 = unl 0 := by rw [show r = (unl 0, 0) from hr]
+          simp only [List.getElem_cons_zero]
+          rw [← h0, ← this]; exact htop
+        exact nested_changes_at lrs hok 0 hp d hd0 hexit (fun k hk => absurd hk (Nat.not_lt_zero k))
+    · -- a deeper level: position a.length + 1
+      have hr1 : r.1 = unl l := by rw [show r = (unl l, l) from hr]
+      have hr2 : r.2 = l := by rw [show r = (unl l, l) from hr]
+      have hal' : a.length < ls.length := by rw [hab]; simp
+      have hp : a.length + 1 < lrs.length := by omega
+      have hlsl : ls[a.length] = l := by
+        simp [hab]
+      refine ⟨a.length + 1, hp, ?_, ?_⟩
+      · simp only [List.getElem_cons_succ]; rw [hlsl, hr2]
+      · have hd : top (unl l).dist = (d : WithTop ℝ) := by rw [← hr1]; exact htop
+        have hexit : lrs[a.length + 1].exit = (d : WithTop ℝ) := by
+          rw [hex _ hp]
+          simp only [List.getElem_cons_succ]
+          rw [hlsl]
+          unfold found; rw [if_pos hs]; exact hd
+        apply nested_changes_at lrs hok (a.length + 1) hp d hd0 hexit
+        intro k hk
+        rw [hex k (by omega)]
+        cases k with
+        | zero =>
+          simp only [List.getElem_cons_zero]
+          rw [← h0, ← hd]; exact hlt0
+        | succ k =>
+          have hk' : k < a.length := by omega
+          simp only [List.getElem_cons_succ]
+          have : ls[k]'(by omega) = a[k] := by
+            simp [hab, List.getElem_append_left hk']
+          rw [this, ← hd]
+          exact hla a[k] (List.getElem_mem hk')
 
 /-! ### non-vacuity -/
 
@@ -365,5 +543,50 @@ example : (levelTransform witnessGeo witnessState 0).isRotation = true := by
 example : ∀ h ∈ ([⟨0, some 1⟩] : List (Hit ℝ)), (fun s : Array Bool => s.getD 0 false == false)
     (flip1 #[false] h) = false := by
   intro h hh; simp at hh; subst hh; simp [flip1]
+
+/-- a plane crossed transversally is in general position -/
+example : FaceGP (Surface.planeAligned Axis.x 1) ⟨0, 0, 0⟩ ⟨1, 0, 0⟩ := by
+  have hq : ∀ t : ℝ, (Surface.planeAligned Axis.x (1 : ℝ)).quadric (along ⟨0, 0, 0⟩ ⟨1, 0, 0⟩ t)
+      = t - 1 := by
+    intro t
+    simp [Surface.quadric, along, Vec3.ax, Axis.toNat, Vec3.get]
+  refine ⟨?_, ?_, ?_, ?_⟩
+  · simp [Surface.quadric, Vec3.ax, Axis.toNat, Vec3.get]
+  · right; left
+    refine ⟨rfl, ?_⟩
+    simp [Surface.rayCoeffs, Vec3.ax, Axis.toNat, Vec3.get]
+  · intro t _ _
+    simp [Surface.rayCoeffs, Vec3.ax, Axis.toNat, Vec3.get]
+  · intro t _ hz
+    rw [hq] at hz
+    have : t = 1 := by linarith
+    rw [this]
+    unfold maxFinite
+    show (1 : ℝ) < (OfScientific.ofScientific 17976931348623157 false 292 : ℝ)
+    norm_num
+
+example : LevelRay.Ok ⟨fun t => if t < 2 then 1 else 2, 1, ((2 : ℝ) : WithTop ℝ), fun _ => []⟩ := by
+  refine ⟨?_, ?_⟩
+  · intro t _ ht
+    have : t < 2 := WithTop.coe_lt_coe.1 ht
+    simp [this]
+  · intro d hd
+    have : d = 2 := (WithTop.coe_injective hd).symm
+    subst this
+    exact ⟨1, one_pos, fun t h1 _ => by simp [not_lt.2 (le_of_lt h1)]⟩
+
+/-- the rotated-daughter witness state is level-consistent -/
+example : LevelsConsistent witnessGeo witnessState := by
+  intro k hk
+  have hk0 : k = 0 := by
+    have : witnessState.levels.size = 2 := rfl
+    omega
+  subst hk0
+  rw [witness_transform]
+  constructor
+  · simp [State.lev, witnessState, Transform.down, Transformation.down, gemvT, Mat3.row, Vec3.get,
+      Vec3.sub]
+  · simp [State.lev, witnessState, Transform.rotDown, Transformation.rotDown, gemvT, Mat3.row,
+      Vec3.get]
 
 end CelerVerif.Nav
